@@ -648,7 +648,7 @@ func c02Split(target string) (p, query string, ok bool) {
 
 // c02PrefixPath is the request path the handlers of the site 127.0.0.1:0/pre see: net/http's
 // parse of the request-target, then httpserver.trimPathPrefix (TrimPrefix on the escaped path,
-// re-parsed with url.Parse).
+// re-parsed with url.ParseRequestURI, i.e. as a path even if it begins with "//").
 func c02PrefixPath(target string) (string, bool) {
 	u, err := url.ParseRequestURI(target)
 	if err != nil {
@@ -662,7 +662,7 @@ func c02PrefixPath(target string) (string, bool) {
 	if u.RawQuery != "" || u.ForceQuery {
 		uri += "?" + u.RawQuery
 	}
-	t, err := url.Parse(uri)
+	t, err := url.ParseRequestURI(uri)
 	if err != nil {
 		return u.Path, true
 	}
